@@ -10,6 +10,7 @@ carries the relative time and date of the root slab it was taken from; scalar/ve
 reference date are the root's.
 -/
 import DarsiaProofs.ImageMeta
+import DarsiaProofs.ImageArr
 namespace Darsia.C02
 open Darsia Darsia.Im
 
@@ -25,28 +26,8 @@ theorem sub_placed (im sub : Img) (hcs : im.cs.ok) (sls : List PySlice)
       (∀ v : List Rat, v.length = im.cs.dim.toNat →
         coordWith am sub.cs v = coordWith am im.cs (List.zipWith (· + ·) v (ns.map fun s => ((s.1 : Nat) : Rat)))) ∧
       (∀ p, p < im.cs.dim.toNat → sub.cs.h p = im.cs.h p) ∧
-      sub.time = im.time ∧ sub.date = im.date ∧ sub.ref = im.ref ∧ sub.series = im.series ∧ sub.scalar = im.scalar := by
-  intro ns
-  obtain ⟨hl, hshape⟩ := subSlices_shape im sub sls h
-  have hnsLen : ns.length = im.cs.dim.toNat := by
-    show (List.zipWith sliceIdx im.cs.shape sls).length = _
-    rw [List.length_zipWith, hcs.shapeLen, hl]; simp
-  have hlt : ∀ s ∈ ns, s.1 < s.2 := by
-    intro s hs
-    unfold Img.nonempty at hne
-    rw [hshape, List.all_eq_true] at hne
-    have := hne (s.2 - s.1) (List.mem_map.mpr ⟨s, hs, rfl⟩)
-    simp at this; omega
-  obtain ⟨am, ham, hwf, hspec⟩ := subSlices_spec im hcs sls hl (fun s hs => le_of_lt (hlt s hs))
-  rw [hspec] at h; injection h with h; subst h
-  obtain ⟨_, hamB⟩ := wf_bound hwf
-  refine ⟨am, ham, rfl, rfl, ?_, ?_, rfl, rfl, rfl, rfl, rfl⟩
-  · intro v hv
-    exact subSpec_coord im ns am v (fun pr hpr => by rw [hnsLen]; exact hamB pr hpr) (by rw [hv, hnsLen]) hlt
-  · intro p hp
-    have hp' : p < ns.length := by rw [hnsLen]; exact hp
-    exact subSpec_h im ns am p hp' (by
-      apply hlt; unfold listGetD; rw [List.getElem?_eq_getElem hp']; exact List.getElem_mem hp')
+      sub.time = im.time ∧ sub.date = im.date ∧ sub.ref = im.ref ∧ sub.series = im.series ∧ sub.scalar = im.scalar :=
+  subSlices_placed im sub hcs sls h hne
 
 /-- slicing a block of root indices yields the block shifted by the (normalised) slice starts. -/
 theorem sub_block (off shape : List Nat) (sls : List PySlice) :
@@ -90,6 +71,35 @@ theorem physical_eq_voxel_box (im : Img) (pts : List (List Rat)) :
   unfold Img.subCoords Img.subVoxels
   cases im.cs.voxelB pts <;> rfl
 
+/-- a physical box whose corner points are the coordinates of arbitrary (fractional, possibly outside)
+voxel positions `ws` selects exactly what the VoxelArray of the FLOORED positions selects — on reversed
+and non-reversed axes alike, in every dimension (every physical point is the coordinate of some voxel
+position, `voxel ∘ coordinate = floor`). -/
+theorem physical_box_clipped (im : Img) (hcs : im.cs.ok) (ws : List (List Rat))
+    (hw : ∀ w ∈ ws, w.length = im.cs.dim.toNat) :
+    ∃ pts, im.cs.coordinateB ws = .ok pts ∧ im.subCoords pts = im.subVoxels (ws.map (·.map Rat.floor)) :=
+  physical_box_floor im hcs ws hw
+
+/-- CLIPPING of point ROIs (VoxelArray, and through the previous theorem CoordinateArray): on an axis of
+`N` voxels on which the points' indices span `[lo, hi]` the code selects the normalised range
+`boxRange N lo hi`; voxel `j` is selected iff `lo ≤ j < hi` and `j` is a voxel of the image; a ROI lying
+entirely outside the image on that axis (`hi ≤ 0` or `lo ≥ N`) selects nothing (before the fix a ROI
+entirely on the negative side selected `[0, N + hi)`: a negative slice stop counts from the end). -/
+theorem roi_clipping (shape : List Nat) (pts : List (List Int)) (sls : List PySlice)
+    (h : boxSlices shape pts = .ok sls) :
+    sls.length = shape.length ∧ ∀ (d N : Nat), shape[d]? = some N → ∃ lo hi, colMin pts d = some lo ∧ colMax pts d = some hi ∧
+      (List.zipWith sliceIdx shape sls)[d]? = some (boxRange N lo hi) ∧
+      (∀ j : Nat, ((boxRange N lo hi).1 ≤ j ∧ j < (boxRange N lo hi).2) ↔ (lo ≤ (j : Int) ∧ (j : Int) < hi ∧ j < N)) ∧
+      ((hi ≤ 0 ∨ (N : Int) ≤ lo) → (boxRange N lo hi).2 ≤ (boxRange N lo hi).1 ∨ (boxRange N lo hi).2 = 0) := by
+  obtain ⟨hl, hg⟩ := boxSlices_ranges shape pts sls h
+  refine ⟨hl, ?_⟩
+  intro d N hd
+  obtain ⟨lo, hi, a, b, c⟩ := hg d N hd
+  exact ⟨lo, hi, a, b, c, fun j => clip_selects N lo hi j, roi_outside_selects_nothing N lo hi⟩
+
+/-! non-vacuity: ROI spanning voxels −2..3 on an axis of 5 is clipped to [0, 3); entirely outside (−3..−1) selects nothing. -/
+example : boxRange 5 (-2) 3 = (0, 3) ∧ boxRange 4 (-3) (-1) = (0, 0) ∧ boxRange 4 6 9 = (4, 4) := by decide
+
 /-- stacking single-time images that carry relative times only and slicing again returns each
 original: its data, its relative time, no date (this failed before the fix of `Image.append`). -/
 theorem stack_slice_rel (cs : CS) (scalar : Bool) (xs : List (Slab × Rat)) (hn : 2 ≤ xs.length) (i : Nat)
@@ -125,6 +135,67 @@ theorem time_interval_keeps_stored_times (im im' : Img) (sl : PySlice) (h : im.t
     im'.slabs = Patch.sliceL im.slabs (sliceIdx im.slabs.length sl) ∧ im'.ref = im.ref ∧ im'.cs = im.cs :=
   timeInterval_fields im im' sl h
 
+/-! ### the data claim on ARRAYS (`DarsiaModel.ImageArr`): pixel arrays are functions from the raw numpy
+multi-index to a value tag; subregion / time_slice / time_interval / append / stack act on them by numpy's
+index arithmetic (axis positions counted as the code counts them: leading axes for the ROI, from the END
+for `[..., i]` / `[..., i, :]`, `axis = space_dim` for `np.stack`). -/
+
+/-- DATA BLOCK THEOREM. For every freshly constructed image (scalar or vector payload, single image or
+series) and EVERY program of extraction steps of any length that neither raises nor yields an empty image:
+entry (t, v, c) of the resulting pixel array is the root's entry (root time index of slab t, v + off, c),
+where `off` is the composed spatial offset of the placement invariant and the composed time map is read
+off the slabs — i.e. `(run program root).data idx = root.data (map idx)`. The tag on the right is
+written out: it names root array, root time index, root voxel and component. -/
+theorem extract_data_eq (rid : Nat) (cs : CS) (series scalar : Bool) (T C : Nat) (time : Option (List (Option Rat)))
+    (date : List (Option Int)) (root : ImgA) (h : mkRootA rid cs series scalar T C time date = .ok root)
+    (hcs : cs.ok) (hT : root.md.time.length = T) (hD : date.length = T)
+    (hc : ∀ k : Nat, root.md.time[k]? = some none → date[k]? = some none)
+    (steps : List Step) (im : ImgA) (hr : root.runOk steps = some im) :
+    ∃ off, Placed root.md im.md off ∧ root.md.runOk steps = some im.md ∧
+      ∀ (t : Nat) (sl : Slab), im.md.slabs[t]? = some sl → ∀ v : List Nat, v.length = cs.dim.toNat → ∀ c : Nat,
+        im.data t v c = root.data sl.t (List.zipWith (· + ·) v off) c ∧
+        im.data t v c = ⟨rid, if series then sl.t else 0, List.zipWith (· + ·) v off, if scalar then 0 else c⟩ := by
+  obtain ⟨hm, _⟩ := mkRootA_md rid cs series scalar T C time date root h
+  have hP0 := placed_root rid cs series scalar T time date root.md hm hcs hT hD hc
+  have hcsEq : root.md.cs = cs := by rw [mkRoot_fields rid cs series scalar T time date root.md hm]
+  have hD0 : DataInv root root (List.replicate cs.dim.toNat 0) :=
+    dataInv_root root _ (by rw [hcsEq]) (fun t sl hsl => (mkRoot_slab_t rid cs series scalar T time date root.md hm t sl hsl).1)
+  obtain ⟨off, hP, hDI, hmd⟩ := data_run root steps root im _ hP0 hD0 hr
+  refine ⟨off, hP, hmd, ?_⟩
+  intro t sl hsl v hv c
+  have e := hDI t sl hsl v (by rw [hcsEq]; exact hv) c
+  refine ⟨e, ?_⟩
+  rw [e]
+  exact root_data_tag rid cs series scalar T C time date root h sl.t _ c (by
+    rw [List.length_zipWith, hv, hP.offLen, hcsEq]; simp)
+
+/-- the same for any image that already satisfies the invariants (extraction from an extraction …). -/
+theorem extract_data_inv (root im im' : ImgA) (off : List Nat) (hP : Placed root.md im.md off)
+    (hD : DataInv root im off) (steps : List Step) (hr : im.runOk steps = some im') :
+    ∃ off', Placed root.md im'.md off' ∧ DataInv root im' off' :=
+  let ⟨o, a, b, _⟩ := data_run root steps im im' off hP hD hr
+  ⟨o, a, b⟩
+
+/-- `append` on arrays (`np.stack` of the time slabs of both images at `axis = space_dim`): slab `t` of the
+result is slab `t` of the receiver, or slab `t − T_a` of the appended image — entry by entry, for scalar and
+vector payloads, single images and series on either side. -/
+theorem append_data_eq (a b s : ImgA) (off : Option Rat) (h : a.append b off = .ok s) (t : Nat) (v : List Nat) (c : Nat)
+    (hv : v.length = a.md.cs.dim.toNat) (ht : t < a.slices.length + b.slices.length) :
+    s.data t v c = if t < a.slices.length then a.data t v c else b.data (t - a.slices.length) v c :=
+  append_data a b s off h t v c hv ht
+
+/-- `stack` of any number of single-time images then `time_slice(i)`: the pixel array of the result is the
+pixel array of image `i`, entry by entry. -/
+theorem stack_slice_data (imgs : List ImgA) (s s' : ImgA) (h : stackA imgs = .ok s) (d : Nat)
+    (hs : ∀ o ∈ imgs, o.md.series = false ∧ o.md.slabs.length = 1 ∧ o.md.cs.dim.toNat = d)
+    (i : Nat) (o : ImgA) (ho : imgs[i]? = some o) (h' : s.step (.tslice (i : Int)) = .ok s')
+    (t : Nat) (v : List Nat) (hv : v.length = d) (c : Nat) : s'.data t v c = o.data 0 v c := by
+  obtain ⟨j, hj, hd⟩ := tslice_data s s' (i : Int) h'
+  have := pyIndex_natCast _ _ _ hj
+  subst this
+  rw [hd t v c]
+  exact stackA_data imgs s h d hs v hv c j o ho
+
 /-! non-vacuity: dated images appended with offset 0 keep their stored times [0, 0] (the date
 differences would be [0, 60]); with no offset the times are derived from the dates. -/
 example : ((dated exCSa true (⟨0, 0, []⟩, 100)).append (dated exCSa true (⟨1, 0, []⟩, 160)) (some 0)).toOption.map (·.time) =
@@ -149,5 +220,11 @@ example : ((exRoot.toOption.bind fun r => r.runOk exProg).map fun im => im.slabs
     some [[[1, 2, 3], [1, 2, 3, 4]]] := by decide +kernel
 example : exRoot.toOption.map (fun r => (r.time, r.date.length)) = some ([some 0, some 10, some 25], 3) := by
   decide +kernel
+
+/-! non-vacuity: a vector-valued 2-D series; program sub → tinterval → tslice; entry (·, (1,2), 1) of the
+result is root entry (time 2, voxel (2,2), component 1). -/
+def exRootA : Except Err ImgA := mkRootA 7 exCS true false 3 2 none [some 0, some 10, some 25]
+example : ((exRootA.toOption.bind fun r => r.runOk [.sub [(some 1, none), (none, some (-1))], .tinterval (some 1, none), .tslice (-1)]).map
+    fun im => im.data 0 [1, 2] 1) = some ⟨7, 2, [2, 2], 1⟩ := by decide +kernel
 
 end Darsia.C02
